@@ -101,7 +101,80 @@ OutcomeOK(e) == e.outcome \in SafeOutcomes /\ (e.src = "base" => e.outcome = "ok
 (* ------------------------------------------------------ known findings *)
 Ipc == {"ipc_file", "ipc_stream", "flight"}
 
-KFTable == {}
+KFTable == {
+  [id |-> "C08-variant-uuid-short-panic", outcome |-> "panic", fmts |-> {"variant"}, wfile |-> "parquet-variant/src/decoder.rs",
+   msg |-> "range end index", fmods |-> {"parquet_variant::decoder"}],
+  [id |-> "C08-variant-date-overflow-panic", outcome |-> "panic", fmts |-> {"variant"}, wfile |-> "parquet-variant/src/decoder.rs",
+   msg |-> "`DateTime + TimeDelta` overflowed", fmods |-> {"parquet_variant::decoder"}],
+  [id |-> "C08-variant-metadata-split-utf8", outcome |-> "panic", fmts |-> {"variant"}, wfile |-> "parquet-variant/src/variant/metadata.rs",
+   msg |-> "Invalid metadata dictionary entry", fmods |-> {"", "parquet_variant::variant"}],
+  [id |-> "C08-ipc-decompress-alloc", outcome |-> "alloc", fmts |-> {"ipc_file", "ipc_stream"}, wfile |-> "",
+   msg |-> "alloc", fmods |-> {"arrow_ipc::compression"}],
+  [id |-> "C08-ipc-length-field-alloc", outcome |-> "alloc", fmts |-> {"ipc_file", "ipc_stream"}, wfile |-> "",
+   msg |-> "alloc", fmods |-> {"arrow_ipc::reader"}],
+  [id |-> "C08-pq-thrift-schema-alloc", outcome |-> "alloc", fmts |-> {"parquet"}, wfile |-> "",
+   msg |-> "alloc", fmods |-> {"parquet::schema"}],
+  [id |-> "C08-avro-ocf-no-progress-loop", outcome |-> "hang", fmts |-> {"avro_ocf"}, wfile |-> "",
+   msg |-> "watchdog", fmods |-> {""}],
+  [id |-> "C08-ipc-validity-bitmap-short", outcome |-> "panic", fmts |-> {"flight", "ipc_file", "ipc_stream"}, wfile |-> "arrow-buffer/src/buffer/boolean.rs",
+   msg |-> "buffer not large enough", fmods |-> {"arrow_ipc::reader"}],
+  [id |-> "C08-ipc-buffer-not-multiple-of-width", outcome |-> "panic", fmts |-> {"flight", "ipc_file", "ipc_stream"}, wfile |-> "arrow-buffer/src/buffer/immutable.rs",
+   msg |-> "assertion failed", fmods |-> {"arrow_ipc::reader"}],
+  [id |-> "C08-ipc-buffer-beyond-body", outcome |-> "panic", fmts |-> {"flight", "ipc_file", "ipc_stream"}, wfile |-> "arrow-buffer/src/buffer/immutable.rs",
+   msg |-> "the offset of the new Buffer cannot exceed the existing length", fmods |-> {"arrow_ipc::reader"}],
+  [id |-> "C08-ipc-buffer-misaligned", outcome |-> "panic", fmts |-> {"ipc_stream"}, wfile |-> "arrow-buffer/src/buffer/scalar.rs",
+   msg |-> "Memory pointer is not aligned with the specified scalar type", fmods |-> {"arrow_ipc::reader"}],
+  [id |-> "C08-pq-def-levels-out-of-bounds", outcome |-> "panic", fmts |-> {"parquet"}, wfile |-> "arrow-buffer/src/util/bit_chunk_iterator.rs",
+   msg |-> "offset + len out of bounds", fmods |-> {"parquet::arrow"}],
+  [id |-> "C08-pq-def-levels-bit-util-assert", outcome |-> "panic", fmts |-> {"parquet"}, wfile |-> "arrow-buffer/src/util/bit_util.rs",
+   msg |-> "assertion `left != right` failed", fmods |-> {"parquet::arrow"}],
+  [id |-> "C08-ipc-arraydata-build-unwrap", outcome |-> "panic", fmts |-> {"ipc_file", "ipc_stream"}, wfile |-> "arrow-data/src/data.rs",
+   msg |-> "called `Result", fmods |-> {"arrow_ipc::reader"}],
+  [id |-> "C08-ipc-fixed-size-list-overflow", outcome |-> "panic", fmts |-> {"ipc_file", "ipc_stream"}, wfile |-> "arrow-data/src/data.rs",
+   msg |-> "integer overflow computing expected number of expected values in Fixed", fmods |-> {"arrow_ipc::reader"}],
+  [id |-> "C08-ipc-variadic-counts-assert", outcome |-> "panic", fmts |-> {"ipc_file", "ipc_stream"}, wfile |-> "arrow-ipc/src/reader.rs",
+   msg |-> "assertion failed", fmods |-> {"arrow_ipc::reader"}],
+  [id |-> "C08-ipc-reader-unwrap-none", outcome |-> "panic", fmts |-> {"flight", "ipc_file", "ipc_stream"}, wfile |-> "arrow-ipc/src/reader.rs",
+   msg |-> "called `Option", fmods |-> {"arrow_ipc::reader"}],
+  [id |-> "C08-ipc-reader-index", outcome |-> "panic", fmts |-> {"ipc_file", "ipc_stream"}, wfile |-> "arrow-ipc/src/reader.rs",
+   msg |-> "index out of bounds", fmods |-> {"arrow_ipc::reader"}],
+  [id |-> "C08-pq-bytes-slice-out-of-bounds", outcome |-> "panic", fmts |-> {"parquet"}, wfile |-> "bytes-1.12.1/src/bytes.rs",
+   msg |-> "range end out of bounds", fmods |-> {"parquet::column", "parquet::encodings"}],
+  [id |-> "C08-pq-bytes-slice-start-after-end", outcome |-> "panic", fmts |-> {"parquet"}, wfile |-> "bytes-1.12.1/src/bytes.rs",
+   msg |-> "range start must not be greater than end", fmods |-> {"parquet::encodings"}],
+  [id |-> "C08-pq-byte-array-divide-by-zero", outcome |-> "panic", fmts |-> {"parquet"}, wfile |-> "parquet/src/arrow/array_reader/byte_array.rs",
+   msg |-> "attempt to divide by zero", fmods |-> {"parquet::arrow"}],
+  [id |-> "C08-pq-flba-divide-by-zero", outcome |-> "panic", fmts |-> {"parquet"}, wfile |-> "parquet/src/arrow/array_reader/fixed_len_byte_array.rs",
+   msg |-> "attempt to divide by zero", fmods |-> {"parquet::arrow"}],
+  [id |-> "C08-pq-flba-unwrap-none", outcome |-> "panic", fmts |-> {"parquet"}, wfile |-> "parquet/src/arrow/array_reader/fixed_len_byte_array.rs",
+   msg |-> "called `Option", fmods |-> {"parquet::arrow"}],
+  [id |-> "C08-pq-flba-range-end", outcome |-> "panic", fmts |-> {"parquet"}, wfile |-> "parquet/src/arrow/array_reader/fixed_len_byte_array.rs",
+   msg |-> "range end index", fmods |-> {"parquet::arrow"}],
+  [id |-> "C08-pq-flba-range-start", outcome |-> "panic", fmts |-> {"parquet"}, wfile |-> "parquet/src/arrow/array_reader/fixed_len_byte_array.rs",
+   msg |-> "range start index", fmods |-> {"parquet::arrow"}],
+  [id |-> "C08-pq-delta-byte-array-slice", outcome |-> "panic", fmts |-> {"parquet"}, wfile |-> "parquet/src/arrow/decoder/delta_byte_array.rs",
+   msg |-> "slice index starts at", fmods |-> {"parquet::arrow"}],
+  [id |-> "C08-pq-page-header-unwrap-none", outcome |-> "panic", fmts |-> {"parquet"}, wfile |-> "parquet/src/column/page.rs",
+   msg |-> "called `Option", fmods |-> {"parquet::column"}],
+  [id |-> "C08-pq-dict-decoder-missing", outcome |-> "panic", fmts |-> {"parquet"}, wfile |-> "parquet/src/column/reader/decoder.rs",
+   msg |-> "Decoder for dict should have been set", fmods |-> {"parquet::column"}],
+  [id |-> "C08-pq-plain-decoder-assert", outcome |-> "panic", fmts |-> {"parquet"}, wfile |-> "parquet/src/data_type.rs",
+   msg |-> "assertion failed", fmods |-> {"parquet::encodings"}],
+  [id |-> "C08-pq-plain-decoder-no-data", outcome |-> "panic", fmts |-> {"parquet"}, wfile |-> "parquet/src/data_type.rs",
+   msg |-> "set_data should have been called", fmods |-> {"parquet::encodings"}],
+  [id |-> "C08-pq-decoding-range-end", outcome |-> "panic", fmts |-> {"parquet"}, wfile |-> "parquet/src/encodings/decoding.rs",
+   msg |-> "range end index", fmods |-> {"parquet::encodings"}],
+  [id |-> "C08-pq-byte-stream-split-index", outcome |-> "panic", fmts |-> {"parquet"}, wfile |-> "parquet/src/encodings/decoding/byte_stream_split_decoder.rs",
+   msg |-> "index out of bounds", fmods |-> {"parquet::encodings"}],
+  [id |-> "C08-pq-negative-column-range", outcome |-> "panic", fmts |-> {"parquet"}, wfile |-> "parquet/src/file/metadata/mod.rs",
+   msg |-> "column start and length should not be negative", fmods |-> {"parquet::file"}],
+  [id |-> "C08-pq-record-reader-assert", outcome |-> "panic", fmts |-> {"parquet"}, wfile |-> "parquet/src/record/reader.rs",
+   msg |-> "assertion `left == right` failed", fmods |-> {"parquet::record"}],
+  [id |-> "C08-pq-record-triplet-panic", outcome |-> "panic", fmts |-> {"parquet"}, wfile |-> "parquet/src/record/triplet.rs",
+   msg |-> "Cannot extract value, max definition level", fmods |-> {"parquet::record"}],
+  [id |-> "C08-pq-bit-reader-range-end", outcome |-> "panic", fmts |-> {"parquet"}, wfile |-> "parquet/src/util/bit_util.rs",
+   msg |-> "range end index", fmods |-> {"parquet::encodings"}]
+}
 
 KFMatch(k, e) ==
   /\ e.outcome = k.outcome /\ e.fmt \in k.fmts
